@@ -77,6 +77,9 @@ func runC05(p *Prog, r *Report) {
 	if want("C05.8") {
 		ruleAtomicAlignment(p, r, "C05.8")
 	}
+	if want("C05.10") {
+		ruleTrSeqAfterFlush(p, r, "C05.10")
+	}
 	if want("C05.9") {
 		ruleBufferRotation(p, r, "C05.9")
 	}
